@@ -624,3 +624,111 @@ func onlyLogged(r *core.Run, v ssa.Value) bool {
 	}
 	return walk(v)
 }
+
+// pureStringFuncs are side-effect free functions of their arguments: two calls
+// with equal arguments give equal results.
+var pureStringFuncs = map[string]bool{
+	"path.Join": true, "path.Clean": true, "path.Base": true, "path.Dir": true,
+	"path/filepath.Join": true, "path/filepath.Clean": true, "path/filepath.FromSlash": true, "path/filepath.ToSlash": true,
+	"path/filepath.Base": true, "path/filepath.Dir": true,
+	"strings.TrimPrefix": true, "strings.TrimSuffix": true, "strings.ToLower": true, "strings.TrimSpace": true,
+}
+
+// packedElems returns the element values of a variadic argument pack
+// (`new [n]T; &t[i] = v_i; slice t[:]`), or nil.
+func packedElems(v ssa.Value) []ssa.Value {
+	sl, ok := v.(*ssa.Slice)
+	if !ok {
+		return nil
+	}
+	al, ok := sl.X.(*ssa.Alloc)
+	if !ok || al.Referrers() == nil {
+		return nil
+	}
+	elems := map[int64]ssa.Value{}
+	for _, ref := range *al.Referrers() {
+		switch x := ref.(type) {
+		case *ssa.Slice, *ssa.DebugRef:
+		case *ssa.IndexAddr:
+			i, ok := core.ConstInt(x.Index)
+			if !ok || x.Referrers() == nil {
+				return nil
+			}
+			for _, u := range *x.Referrers() {
+				st, ok := u.(*ssa.Store)
+				if !ok || st.Addr != ssa.Value(x) {
+					return nil
+				}
+				if _, dup := elems[i]; dup {
+					return nil
+				}
+				elems[i] = st.Val
+			}
+		default:
+			return nil
+		}
+	}
+	out := make([]ssa.Value, len(elems))
+	for i := range out {
+		e, ok := elems[int64(i)]
+		if !ok {
+			return nil
+		}
+		out[i] = e
+	}
+	return out
+}
+
+// sameValue reports whether a and b are the same value or the same pure
+// expression of the same values (`filepath.FromSlash(path.Join(b, k))`
+// computed twice).
+func sameValue(r *core.Run, a, b ssa.Value, depth int) bool {
+	if a == b {
+		return true
+	}
+	if a == nil || b == nil || depth > 6 {
+		return false
+	}
+	switch x := a.(type) {
+	case *ssa.Const:
+		y, ok := b.(*ssa.Const)
+		return ok && x.Value != nil && y.Value != nil && x.Value.ExactString() == y.Value.ExactString() && types.Identical(x.Type(), y.Type())
+	case *ssa.Call:
+		y, ok := b.(*ssa.Call)
+		if !ok || x.Call.IsInvoke() || y.Call.IsInvoke() {
+			return false
+		}
+		n := r.P.CalleeName(x)
+		if n != r.P.CalleeName(y) || !pureStringFuncs[n] || len(x.Call.Args) != len(y.Call.Args) {
+			return false
+		}
+		for i := range x.Call.Args {
+			pa, pb := packedElems(x.Call.Args[i]), packedElems(y.Call.Args[i])
+			if pa != nil || pb != nil {
+				if len(pa) != len(pb) {
+					return false
+				}
+				for j := range pa {
+					if !sameValue(r, pa[j], pb[j], depth+1) {
+						return false
+					}
+				}
+				continue
+			}
+			if !sameValue(r, x.Call.Args[i], y.Call.Args[i], depth+1) {
+				return false
+			}
+		}
+		return true
+	case *ssa.BinOp:
+		y, ok := b.(*ssa.BinOp)
+		return ok && x.Op == y.Op && sameValue(r, x.X, y.X, depth+1) && sameValue(r, x.Y, y.Y, depth+1)
+	case *ssa.Convert:
+		y, ok := b.(*ssa.Convert)
+		return ok && types.Identical(x.Type(), y.Type()) && sameValue(r, x.X, y.X, depth+1)
+	case *ssa.ChangeType:
+		y, ok := b.(*ssa.ChangeType)
+		return ok && types.Identical(x.Type(), y.Type()) && sameValue(r, x.X, y.X, depth+1)
+	}
+	return false
+}
